@@ -356,13 +356,14 @@ CHECKS = {
         "level_text": ("Pairs (A, B): B is A re-laid-out, re-commented, with old-style modifiers, split over an include diamond, or with a file type renamed (must be equivalent both ways), or A "
                        "after exactly one meaning-changing edit at depth 0-3 of the call closure - call alias, a literal deep inside an argument, swapped same-typed bindings / return bindings, "
                        "stage input renamed / retyped / added, output added, split toggled, disabling condition added / dropped / re-pointed, top-level argument changed (must be refused both ways). "
-                       "Wildcard bindings from struct-typed inputs ('* = self.w1') are generated in pairs and re-pointed as a semantic edit. Exploration."),
+                       "Wildcard bindings from struct-typed inputs ('* = self.w1') are generated in pairs and re-pointed as a semantic edit; a member projection (self.cfg.alpha, CALL.out.alpha) in a call or "
+                       "return binding is re-pointed to a sibling member of the same type. Exploration."),
         "level_note": "The run-time refusal (Runtime.ReattachToPipestance) delegates to EquivalentCall after a byte comparison; mutual exclusion of two live mrp processes is part of the E2 tier (not yet built).",
         "rule": "rapid program generator (4 pipelines deep) x one edit; every pair is non-trivial; distinct by hash(original text, edited text); classes: edit kind x depth.",
         "assumptions": ["edits are applied to the generator's IR and printed; an edit that makes the program stop compiling is skipped and counted"],
         "units": [U("props/lang", "TestC15Equivalence", (6000, 8), (100000, 10)),
                   U("props/run", "TestE2Lock", (20, 6), (500, 8))],
-        "floors": {"quick": {"semantic": 10000, "cosmetic": 10000, "edit:repoint-disabled": 60, "edit:rename-filetype": 500, "edit:includes": 2000, "e2-lock": 60}},
+        "floors": {"quick": {"semantic": 10000, "cosmetic": 10000, "edit:repoint-disabled": 60, "edit:repoint-member": 40, "edit:rename-filetype": 500, "edit:includes": 2000, "e2-lock": 60}},
     },
     "C19": {
         "level": "exploration",
